@@ -350,6 +350,32 @@ func verifyFunc(w *World, fi *FuncInfo, fc *FuncContract, sweep bool) (res *Func
 	return res
 }
 
+// verifyLemma: a formula over spec functions, proved from the axioms and the
+// (dispatched) contracts it mentions. It is an obligation, never an assumption.
+func verifyLemma(w *World, lm *Lemma) (res *FuncResult) {
+	fc := &FuncContract{Key: "lemma." + lm.Name, Pkg: lm.Pkg, Name: lm.Name, Dispatch: lm.Dispatch, Props: []string{lm.Prop}, Loops: map[string]*LoopSpec{}}
+	vc := newVC(w, nil, fc)
+	vc.ss.pkg = lm.Pkg
+	res = &FuncResult{Key: "lemma " + lm.Name, vc: vc, Props: fc.Props}
+	defer func() {
+		if r := recover(); r != nil {
+			vc.unsupportedf(0, "engine panic in lemma %s: %v", lm.Name, r)
+			res.Unsupported = vc.unsupported
+		}
+	}()
+	env := &SpecEnv{vc: vc, vars: map[string]Value{}, old: map[string]Value{}, bound: map[string]Term{}, pkg: lm.Pkg}
+	c := vc.specBool(lm.Expr, env)
+	pkgShort := strings.TrimPrefix(lm.Pkg, modPath+"/")
+	ob := &Obligation{Name: pkgShort + ".lemma." + lm.Name, Kind: "lemma", Func: "lemma " + lm.Name, Pos: fmt.Sprintf("%s:%d", shortFile(lm.File), lm.Line),
+		PC: tBool(true), Cond: c, NDecl: len(vc.decls), NAssume: len(vc.assumes), Desc: lm.Src, Expect: "unsat", vc: vc, Props: fc.Props}
+	smoke := &Obligation{Name: pkgShort + ".lemma." + lm.Name + "#vac:smoke", Kind: "vac:smoke", Func: "lemma " + lm.Name, Pos: ob.Pos,
+		PC: tBool(true), Cond: tBool(false), NDecl: len(vc.decls), NAssume: len(vc.assumes), Desc: "the axioms used by the lemma are consistent", Expect: "sat", vc: vc}
+	vc.obls = []*Obligation{ob, smoke}
+	res.Obls = vc.obls
+	res.Unsupported = vc.unsupported
+	return res
+}
+
 func fiRecvName(fi *FuncInfo) string {
 	if fi.Decl.Recv != nil && len(fi.Decl.Recv.List) > 0 && len(fi.Decl.Recv.List[0].Names) > 0 {
 		return fi.Decl.Recv.List[0].Names[0].Name
